@@ -1,6 +1,7 @@
 package nc
 
 import (
+	"go/constant"
 	"go/token"
 	"go/types"
 
@@ -73,6 +74,84 @@ func (o *Origins) EdgeFact(e Edge) *Fact {
 		return nil
 	}
 	return o.condFact(ifi.Cond, e.Succ == 0)
+}
+
+// EdgeFacts returns every fact known on the edge: the fact of the branch condition itself and, when the
+// condition is a boolean built by short-circuit evaluation and kept in a variable
+// (`expired := locktime > 0 && now > locktime; ...; if expired`), the facts of the operands that must have
+// been evaluated to reach this outcome. In SSA such a value is a phi whose other inputs are the constant of
+// the opposite outcome; the surviving input's value and the branch edges on the single-predecessor chain
+// above it all hold on this edge.
+func (o *Origins) EdgeFacts(e Edge) []*Fact {
+	b := e.From
+	if len(b.Instrs) == 0 {
+		return nil
+	}
+	ifi, ok := b.Instrs[len(b.Instrs)-1].(*ssa.If)
+	if !ok {
+		return nil
+	}
+	var out []*Fact
+	o.condFacts(ifi.Cond, e.Succ == 0, &out, 0)
+	return out
+}
+
+func (o *Origins) condFacts(c ssa.Value, truth bool, out *[]*Fact, depth int) {
+	if f := o.condFact(c, truth); f != nil {
+		*out = append(*out, f)
+	}
+	if depth > 4 {
+		return
+	}
+	for {
+		u, ok := c.(*ssa.UnOp)
+		if !ok || u.Op != token.NOT {
+			break
+		}
+		c, truth = u.X, !truth
+	}
+	phi, ok := c.(*ssa.Phi)
+	if !ok || !isBool(phi.Type()) {
+		return
+	}
+	// inputs that are the constant of the opposite outcome are impossible on this edge
+	surviving := -1
+	for i, in := range phi.Edges {
+		if k, ok := in.(*ssa.Const); ok && k.Value != nil {
+			if constant.BoolVal(k.Value) != truth {
+				continue
+			}
+		}
+		if surviving >= 0 {
+			return // several possible inputs: nothing more is known
+		}
+		surviving = i
+	}
+	if surviving < 0 {
+		return
+	}
+	in := phi.Edges[surviving]
+	if _, isConst := in.(*ssa.Const); !isConst {
+		o.condFacts(in, truth, out, depth+1)
+	}
+	// branch edges on the single-predecessor chain above the surviving input
+	blk := phi.Block().Preds[surviving]
+	child := phi.Block()
+	for steps := 0; steps < 8; steps++ {
+		if n := len(blk.Instrs); n > 0 {
+			if ifi, ok := blk.Instrs[n-1].(*ssa.If); ok {
+				// which successor leads to child? (both may: then nothing is known)
+				s0, s1 := blk.Succs[0] == child, blk.Succs[1] == child
+				if s0 != s1 {
+					o.condFacts(ifi.Cond, s0, out, depth+1)
+				}
+			}
+		}
+		if len(blk.Preds) != 1 {
+			break
+		}
+		child, blk = blk, blk.Preds[0]
+	}
 }
 
 // condFact canonicalises "cond evaluates to truth".
